@@ -23,6 +23,7 @@ fn models(tier: Tier) -> Vec<Model> {
             v.extend(gen::m5(0).into_iter().step_by(97));
             v.extend(gen::m7(0).into_iter().step_by(53));
             v.extend(gen::m8(0).into_iter().step_by(9));
+            v.extend(gen::m9(0).into_iter().step_by(2));
         }
         Tier::Thorough => {
             v.extend(gen::m1(1).into_iter().step_by(17));
@@ -31,6 +32,7 @@ fn models(tier: Tier) -> Vec<Model> {
             v.extend(gen::m5(1).into_iter().step_by(23));
             v.extend(gen::m7(1).into_iter().step_by(11));
             v.extend(gen::m8(1).into_iter().step_by(3));
+            v.extend(gen::m9(1));
         }
     }
     v
@@ -63,13 +65,20 @@ fn directly_contradictory(a: &Pred, b: &Pred) -> bool {
 fn combos(tier: Tier) -> Vec<(Cfg, BrancherSpec)> {
     let cfgs = Cfg::slice();
     let brs = BrancherSpec::slice();
+    // restarts only happen with a brancher that does not declare them pointless (the static
+    // selector pairs do): the restart-forcing configurations run with the default brancher
     if tier.quick() {
-        vec![(cfgs[0], brs[0].clone()), (cfgs[1], brs[1].clone()), (cfgs[2], brs[2].clone())]
+        vec![
+            (cfgs[0], brs[0].clone()),
+            (cfgs[1], brs[0].clone()),
+            (cfgs[2], brs[2].clone()),
+            (cfgs[3], brs[0].clone()),
+            (cfgs[1], brs[1].clone()),
+        ]
     } else {
-        cfgs.iter()
-            .enumerate()
-            .map(|(i, c)| (*c, brs[i % brs.len()].clone()))
-            .collect()
+        let mut v: Vec<(Cfg, BrancherSpec)> = cfgs.iter().map(|c| (*c, brs[0].clone())).collect();
+        v.extend(cfgs.iter().enumerate().map(|(i, c)| (*c, brs[1 + i % (brs.len() - 1)].clone())));
+        v
     }
 }
 
